@@ -454,7 +454,7 @@ impl C19 {
             code.memsz = code.data.len() as u64;
             let dstart = ((start + code.memsz + 0xfff) & !0xfff) + 0x1000;
             let dlen = rng.range(64, 256) as usize & !3;
-            let data = SegSpec { vaddr: dstart, data: vec![0; dlen], memsz: dlen as u64 + rng.below(64), r: true, w: true, x: false };
+            let data = SegSpec { vaddr: dstart, data: vec![0; dlen], memsz: dlen as u64 + if rng.chance(1, 3) { 0 } else { rng.below(64) }, r: true, w: true, x: false };
             let mut dynsyms = Vec::new();
             for i in 0..rng.range(1, 4) {
                 let func = rng.chance(2, 3);
@@ -522,7 +522,8 @@ impl C19 {
             let mut used: BTreeSet<u64> = BTreeSet::new();
             let mut free_word = |rng: &mut Rng, used: &mut BTreeSet<u64>| -> Option<u64> {
                 for _ in 0..20 {
-                    let o = (rng.below(data_len - 4)) & !3;
+                    // any word of the data segment's file part, the last one included
+                    let o = rng.below(data_len / 4) * 4;
                     if used.insert(o) {
                         return Some(o);
                     }
